@@ -359,6 +359,11 @@ def Sess.ready (s : Sess) : Sess × Res :=
     ({ s with p := p' }, r)
   else Sess.loop Consts.maxLoopIterations s
 
+/-- `Pipe::ready` (`SessionState` impl: the loop an upgraded WebSocket runs): the same turns
+    as `ready_inner`, but a front HUP event returns `Close` at once without touching the state -/
+def Sess.readyWs (s : Sess) : Sess × Res :=
+  if s.p.fr.eH then (s, .close) else Sess.loop Consts.maxLoopIterations s
+
 /-- what the outside world does between two wake-ups -/
 inductive Ev where
   | clientSend (bs : Bytes)
@@ -367,6 +372,11 @@ inductive Ev where
   | backendFin
   | clientRoom (n : Nat)
   | backendRoom (n : Nat)
+  /-- the backend's send buffer is full from now on (no readiness event) -/
+  | backendBlock
+  /-- epoll reports ERROR on the front / the backend socket -/
+  | frontErr
+  | backErr
   deriving Repr
 
 def Sess.apply (s : Sess) : Ev → Sess
@@ -376,6 +386,9 @@ def Sess.apply (s : Sess) : Ev → Sess
   | .backendFin => { s with k := { s.k with bFin := true }, p := { s.p with br := { s.p.br with eR := true, eH := true } } }
   | .clientRoom n => { s with k := { s.k with cRoom := s.k.cRoom + n }, p := { s.p with fr := { s.p.fr with eW := true } } }
   | .backendRoom n => { s with k := { s.k with bRoom := s.k.bRoom + n }, p := { s.p with br := { s.p.br with eW := true } } }
+  | .backendBlock => { s with k := { s.k with bRoom := 0 } }
+  | .frontErr => { s with p := { s.p with fr := { s.p.fr with eE := true } } }
+  | .backErr => { s with p := { s.p with br := { s.p.br with eE := true } } }
 
 /-- a schedule = a list of wake-ups, each preceded by a batch of outside events -/
 def Sess.runWakes (s : Sess) : List (List Ev) → Sess × Res
